@@ -121,7 +121,7 @@ func lockPairing(c *cx, id string, classes []string, wrappers map[string]bool) {
 			if op <= 0 {
 				continue
 			}
-			okc := false
+			okc := classes == nil // nil: every lock class
 			for _, k := range classes {
 				if k == cls {
 					okc = true
@@ -160,6 +160,11 @@ func lockPairing(c *cx, id string, classes []string, wrappers map[string]bool) {
 				rp, _ := g.Where(rs)
 				if g.Reachable(g.After(pt), rp, nil, isRel) {
 					bad = "return at " + c.p.Pos(rs.Pos()) + " reachable with " + cls + " still held"
+				}
+			}
+			for _, ex := range g.Exits() {
+				if bad == "" && g.Reachable(g.After(pt), ex, nil, isRel) {
+					bad = "the end of the function is reachable with " + cls + " still held"
 				}
 			}
 			c.r.Check(id, f, "acquire of "+cls, "O: every path from the acquire to a return releases the lock", cl.Pos(), bad == "", bad)
